@@ -261,6 +261,11 @@ fn valid_closed(u: &Universe, t: &Ty) -> bool {
                     if bounds.iter().any(|b| b.ends_with("ZeroCopy")) && !u.is_zero_elem(t) {
                         return false;
                     }
+                    // a deep-copy type replicates the bounds of a field parameter on the parameter's ε-copy type:
+                    // with a `ZeroCopy` bound only arguments whose ε-copy type is the type itself are usable
+                    if !d.is_zero() && d.is_field_param(k) && bounds.iter().any(|b| b.ends_with("ZeroCopy")) && !matches!(t, Ty::Prim(_) | Ty::Phantom(_) | Ty::RangeFull) {
+                        return false;
+                    }
                     if bounds.iter().any(|b| b.ends_with("DeepCopy")) && u.is_zero(t) {
                         return false;
                     }
